@@ -23,6 +23,8 @@ pub enum Step {
     DropReader(usize),
     DropRemote(usize),
     Settle,
+    /// Stall / release the readers of every channel the agent opened to send commands.
+    StallTargets(bool),
     /// Settle, send a take/drop to a map lane, settle (so that the oracle knows the state before).
     TakeDrop { remote: usize, lane: u32, take: bool, n: u64 },
     StopAgent,
@@ -58,6 +60,8 @@ pub enum Focus {
     Links,
     /// C05: persistent lanes and stores.
     Persist,
+    /// C14: commands the agent itself sends to other lanes.
+    Commands,
 }
 
 pub struct Gen<'a> {
@@ -65,13 +69,14 @@ pub struct Gen<'a> {
     counters: Vec<u64>,
     next_cmd: u64,
     next_supply: u64,
+    pub targets: usize,
 }
 
 pub const CAPS: [usize; 7] = [2, 3, 5, 8, 16, 64, 4096];
 
 impl<'a> Gen<'a> {
     pub fn new(rng: &'a mut Rng) -> Self {
-        Gen { rng, counters: vec![0; 64], next_cmd: 1, next_supply: 1 }
+        Gen { rng, counters: vec![0; 64], next_cmd: 1, next_supply: 1, targets: 3 }
     }
 
     /// Unique value: `source << 32 | counter` (source 1.. = remotes, 40.. = handler on behalf of remote).
@@ -84,6 +89,7 @@ impl<'a> Gen<'a> {
         let rng = &mut *self.rng;
         let remotes = match focus {
             Focus::Protocol | Focus::Links => rng.range(1, 4) as usize,
+            Focus::Commands => rng.range(1, 2) as usize,
             _ => rng.range(1, 3) as usize,
         };
         let small = rng.chance(2, 3);
@@ -140,7 +146,7 @@ impl<'a> Gen<'a> {
                     V1
                 }
             }
-            Focus::Supply => {
+            Focus::Supply | Focus::Commands => {
                 if r < 80 {
                     S1
                 } else {
@@ -187,6 +193,7 @@ impl<'a> Gen<'a> {
     fn acts(&mut self, focus: Focus, cfg: &Config, source: usize) -> Vec<Act> {
         let n = match focus {
             Focus::Supply => self.rng.range(1, 3),
+            Focus::Commands => self.rng.range(1, 12),
             _ => self.rng.range(1, 6),
         };
         let mut acts = vec![];
@@ -212,10 +219,15 @@ impl<'a> Gen<'a> {
                     }
                 }
                 Focus::Supply => {
-                    let n = if self.rng.chance(1, 6) { self.rng.range(200, 2000) } else { self.rng.range(1, 40) } as u32;
+                    let n = if self.rng.chance(1, 40) { self.rng.range(150, 900) } else { self.rng.range(1, 30) } as u32;
                     let first = self.next_supply;
                     self.next_supply += n as u64;
                     Act::Sup { first, n }
+                }
+                Focus::Commands => {
+                    let target = self.rng.below(self.targets.max(1) as u64) as u32;
+                    let mode = *self.rng.pick(&[0u32, 0, 1, 2, 2]);
+                    Act::Send { target, v: self.val(source), mode }
                 }
                 Focus::Persist => match self.rng.below(8) {
                     0 | 1 => {
@@ -302,7 +314,7 @@ impl<'a> Gen<'a> {
                     Step::Command(r, CMD.to_string(), self.cmd_body(acts).1)
                 }
             }
-            Focus::Supply => {
+            Focus::Supply | Focus::Commands => {
                 let acts = self.acts(focus, cfg, 40 + r);
                 Step::Command(r, CMD.to_string(), self.cmd_body(acts).1)
             }
@@ -350,6 +362,7 @@ impl<'a> Gen<'a> {
                 Focus::Supply => (90, 30, 60, 110, 8, 40),
                 Focus::Links => (200, 120, 170, 50, 60, 60),
                 Focus::Persist => (60, 60, 20, 60, 5, 40),
+                Focus::Commands => (20, 10, 10, 20, 0, 120),
             };
             let mut acc = 0;
             let mut hit = |w: u64| {
@@ -380,6 +393,8 @@ impl<'a> Gen<'a> {
                 gone[r] = true;
             } else if hit(w_settle) {
                 steps.push(Step::Settle);
+            } else if focus == Focus::Commands && hit(120) {
+                steps.push(Step::StallTargets(self.rng.chance(3, 5)));
             } else if focus == Focus::Protocol && hit(6) {
                 steps.push(Step::StopAgent);
                 stopped = true;
